@@ -227,31 +227,24 @@ func runC14SioLoop(c *sim.Ctx, t *testing.T) {
 		s.Go("consumer", func(tk *sim.Task) {
 			for {
 				sim.Yield("h#consume")
-				select {
-				case <-ctx.Done():
+				if _, ok := sim.RecvOrDone("h#consume-select", ctx.Done(), (<-chan *Result)(cp.out)); !ok {
 					return
-				case <-cp.out:
-					sim.Yield("h#consumed")
-					nresults++
 				}
+				sim.Yield("h#consumed")
+				nresults++
 			}
 		})
 		s.Go("submitter", func(tk *sim.Task) {
 			for _, m := range msgs {
 				sim.Yield("h#send")
-				select {
-				case <-ctx.Done():
+				if !sim.SendOrDone("h#send-select", ctx.Done(), (chan<- interface{})(cp.in), vfJSONCopy(m)) {
 					return
-				case cp.in <- vfJSONCopy(m):
 				}
 				sim.Yield("h#sent")
 			}
 			// one last message: when the loop takes it, everything before has been processed
 			sim.Yield("h#send")
-			select {
-			case <-ctx.Done():
-			case cp.in <- map[string]interface{}{"to": "nobody", "id": "flush"}:
-			}
+			sim.SendOrDone("h#send-select", ctx.Done(), (chan<- interface{})(cp.in), interface{}(map[string]interface{}{"to": "nobody", "id": "flush"}))
 			sim.Yield("h#sent")
 		})
 		s.Run()
